@@ -16,6 +16,8 @@ FREQ = {"FREQ": ("freq_eqb", {"daily": "Daily", "weekly": "Weekly", "monthly": "
 SINK_EFFECTS = {"self._sink.add": dict(var="self_sink", args=["IVL"], update="(sl_add {0} {var})"),
                 "self._sink.remove": dict(var="self_sink", args=["IVL"], update="(sl_remove {0} {var})")}
 
+HENT0 = "(0, 0%N, mkCov 0 0 0)"          # default heap entry (only where Python would raise IndexError)
+
 SPECS = [
     dict(name="g_finite_start", file="calgebra/interval.py", cls="Interval", func="finite_start", kind="expr",
          params=[("self", "IVL")], ret="Z"),
@@ -113,6 +115,23 @@ SPECS = [
          selfattrs={"_key_validated": ("self_key_validated", "B"), "_key_fields": ("self_key_fields", "O:KEYS")},
          calls={"self.source.fetch": ("source_fetch", ["OZ", "OZ", "B"], "LIST")},
          effects=dict(SINK_EFFECTS, **{"self._get_key": dict(var=None, args=["IVL"])})),
+    # _evict_expired: the expiry heap is the list of its entries in pop order (Model/Cache.v), so
+    # heap[0] = hd and heappop = hd / tl; self._cover.remove raises ValueError iff the cover is absent;
+    # time.monotonic() is the parameter clock_now
+    dict(name="g_cache_evict_expired", file="calgebra/cache.py", cls="CachedTimeline", func="_evict_expired",
+         kind="proc", res=True, types={"HENT": "hent", "COV": "cov", "N": "N"}, tuples={"HENT": ["Z", "N", "COV"]},
+         defaults={"HENT": HENT0},
+         params=[("clock_now", "Z"), ("self_expiry_heap", "L:HENT"), ("self_cover", "L:COV"), ("self_sink", "LIST")],
+         state=["self_expiry_heap", "self_cover", "self_sink"],
+         selfattrs={"_expiry_heap": ("self_expiry_heap", "L:HENT")},
+         calls={"monotonic": dict(coq="clock_now", args=[], ret="Z")},
+         pops={"heapq.heappop": dict(arg="self._expiry_heap", var="self_expiry_heap", result="(hd " + HENT0 + " {var})",
+                                     update="(tl {var})", ret="HENT")},
+         attrs={("COV", "start"): ("cv_s", "Z"), ("COV", "end"): ("cv_e", "Z")},
+         effects={"self._cover.remove": dict(var="self_cover", args=["COV"], update="(cov_remove {0} {var})",
+                                             raises=("ValueError", "(existsb (cov_eqb {0}) {var})"), must_try=True),
+                  "self._purge_sink": dict(var="self_sink", args=["Z", "Z"],
+                                           update="(g_cache_purge_sink {var} {0} {1})")}),
 ]
 
 
